@@ -23,6 +23,10 @@ Other(o) == IF o = "a" THEN "b" ELSE "a"
 
 SeqsUpTo(n) == UNION {[1..k -> Vals] : k \in 0..n}
 
+\* byte patterns the storage holds before a default-initialisation (C02: "default-initialised as well as
+\* value-initialised objects")
+FillBytes == {0, 165, 255}
+
 X0 == [v |-> 0, p |-> 0, q |-> 0, n |-> 0, xs |-> <<>>, src |-> "a"]
 C(op, x) == [op |-> op, x |-> x]
 
@@ -39,6 +43,7 @@ CallsSV(o) ==
     \cup {C("erase_pos", [X0 EXCEPT !.p = p]) : p \in 0..(n - 1)}
     \cup {C("erase_range", [X0 EXCEPT !.p = p, !.q = q]) : p \in 0..n, q \in 0..n}
     \cup {C("resize", [X0 EXCEPT !.n = k]) : k \in 0..cap}
+    \cup {C("ctor_dinit", [X0 EXCEPT !.n = fill]) : fill \in FillBytes}
     \cup {C(op, [X0 EXCEPT !.n = k, !.v = v]) : op \in {"resize_val", "assign_fill", "ctor_fill"}, k \in 0..cap, v \in Vals}
     \cup {C("ctor_n", [X0 EXCEPT !.n = k]) : k \in 0..cap}
     \cup {C(op, [X0 EXCEPT !.xs = xs]) : op \in {"assign_range", "ctor_range"}, xs \in SeqsUpTo(Min2(MaxXs, cap))}
@@ -50,6 +55,7 @@ CallsIPV(o) ==
     {C(op, [X0 EXCEPT !.v = v]) : op \in TryOps \cup UncheckedOps, v \in Vals}
     \cup {C("pop_back", X0), C("clear", X0), C("ctor_default", X0), C("front", X0), C("back", X0)}
     \cup {C("at", [X0 EXCEPT !.p = p]) : p \in 0..(Len(obj[o]) - 1)}
+    \cup {C("ctor_dinit", [X0 EXCEPT !.n = fill]) : fill \in FillBytes}
     \cup {C(op, [X0 EXCEPT !.src = Other(o)]) : op \in {"ctor_copy", "ctor_move"}}
 
 CallsStack(o) ==
@@ -87,7 +93,7 @@ BadCalls(o) == IF Kind = "sv" THEN BadSV(o) ELSE IF Kind = "ipv" THEN BadIPV(o) 
 Calls(o) == IF Kind = "sv" THEN CallsSV(o) ELSE IF Kind = "ipv" THEN CallsIPV(o) ELSE CallsStack(o)
 
 \* operations a moved-from object must still accept (C03: assignable, destructible)
-RevivingOps == {"clear", "assign_fill", "assign_range", "copy_assign", "move_assign", "ctor_default",
+RevivingOps == {"clear", "assign_fill", "assign_range", "copy_assign", "move_assign", "ctor_default", "ctor_dinit",
                 "ctor_n", "ctor_fill", "ctor_range", "ctor_copy", "ctor_move"}
 
 Init ==
